@@ -5,10 +5,13 @@ import os
 import locks
 import rules_seq
 import rules_ttl
+import rules_pos
+import rules_policy
+import rules_misc
 from analysis import Analysis
 from report import Result
 
-LEVEL = {'C04': 'other', 'C05': 'other', 'C16': 'other', 'C17': 'other', 'C02': 'other', 'C03': 'other', 'C06': 'proof', 'C07': 'proof', 'C09': 'proof', 'C19': 'proof'}
+LEVEL = {'C01': 'other', 'C08': 'other', 'C18': 'other', 'C20': 'other', 'C11': 'other', 'C14': 'other', 'C15': 'other', 'C10': 'other', 'C12': 'other', 'C13': 'other', 'C04': 'other', 'C05': 'other', 'C16': 'other', 'C17': 'other', 'C02': 'other', 'C03': 'other', 'C06': 'proof', 'C07': 'proof', 'C09': 'proof', 'C19': 'proof'}
 _AN = {}
 
 
@@ -165,7 +168,93 @@ c17 = _simple('C17', rules_ttl.rule_c17,
               ['steady_clock is monotone', 'RI at entry'],
               {'R-CLEAN-LOOP': 2, 'R-CLEAN-TALLY': 4, 'R-PURGE-SHAPE': 20, 'ORD-WITNESS': 10})
 
-CHECKS = {'C04': c04, 'C05': c05, 'C16': c16, 'C17': c17, 'C02': c02, 'C03': c03, 'C06': c06, 'C07': c07, 'C09': c09, 'C19': c19}
+c10 = _simple('C10', lambda an, res: rules_pos.rule_order(an, res, 'C10', ['lru_cache', 'tlru_cache', 'utlru_cache']),
+              'C10 (DESIGN.md 6.C10): list-position postconditions on every path of insert/find/erase (single and range forms) of lru, tlru, utlru: '
+              'R-USE-POS (an update or non-peek live hit ends with the entry at the FRONT of the recency list; peek/miss/rejected paths move '
+              'nothing), R-BIND-POS (a new entry ends at the FRONT), R-REMOVE-POS (a removed entry\'s node ends FIRST_FREE), R-VICTIM (the '
+              'policy victim is back() of the list under size >= capacity, i.e. the last used node), R-WHO-MOVES, R-PARTITION-INTEGRITY. '
+              'Paper step: move-to-front on use + remove-one keeps the used region ordered by last use, so its last node is the LRU entry.',
+              ['[list.ops] splice semantics (stdmodel)', 'RI at entry', 'tlru/utlru: the expired-first victim is C16'],
+              {'R-USE-POS': 40, 'R-BIND-POS': 10, 'R-REMOVE-POS': 10, 'R-VICTIM': 6})
+c12 = _simple('C12', lambda an, res: rules_pos.rule_order(an, res, 'C12', ['fifo_cache']),
+              'C12 (DESIGN.md 6.C12): fifo node positions on every path: insert takes the head node to the BACK (evicting the key it holds iff it '
+              'holds one), update and lookups move nothing, erase parks the freed node at the FRONT and unbinds it, so unbound nodes form the '
+              'prefix the next inserts recycle and bound nodes stay in insertion order.',
+              ['[list.ops] splice semantics', 'RI at entry (unbound nodes form a prefix)'],
+              {'R-USE-POS': 10, 'R-BIND-POS': 4, 'R-REMOVE-POS': 4, 'R-VICTIM': 2})
+c13 = _simple('C13', lambda an, res: rules_pos.rule_order(an, res, 'C13', ['mru_cache']),
+              'C13 (DESIGN.md 6.C13): mru list positions on every path: an update or non-peek hit ends with the entry at LAST_USED (just before '
+              'the partition), a new entry is claimed at the partition and so ends LAST_USED, the victim is back() under size >= capacity '
+              '(= LAST_USED = most recently used), removed nodes end FIRST_FREE, nothing else moves.',
+              ['[list.ops] splice semantics', 'RI at entry'],
+              {'R-USE-POS': 12, 'R-BIND-POS': 4, 'R-REMOVE-POS': 4, 'R-VICTIM': 2})
+
+c11 = _simple('C11', lambda an, res: rules_policy.rule_counts(an, res, 'C11'),
+              'C11 (DESIGN.md 6.C11), lfu_cache and lfuda_cache: R-COUNT-ALG on every path (a new entry is filed with count 1; a use reads '
+              'c = the entry\'s own stored count, erases that count entry, files c+1 for the same node and stores the new position, in that '
+              'order; peek / miss / rejected paths leave the count structure alone; a removal deletes the entry\'s count entry), R-VICTIM-MIN '
+              '(the victim is begin() of a multimap<size_t,...> with the default order), R-COUNT-REPORT (find_with_use_count returns the '
+              'count after the access, or the stored count when peeking).',
+              ['[associative.reqmts]: begin() of a less-ordered multimap is a minimum', 'RI at entry'],
+              {'R-COUNT-ALG': 60, 'R-VICTIM-MIN': 8, 'R-COUNT-REPORT': 4})
+c14 = _simple('C14', rules_policy.rule_c14,
+              'C14 (DESIGN.md 6.C14), lfuda_cache: C11\'s count algebra; R-STAMP (every use / insert stamps the entry with the call\'s clock '
+              'sample, nothing else does); R-USE-POS / R-BIND-POS (a stamped entry ends at the young end = LAST_USED of the age list, so the '
+              'list stays ordered by stamp); R-AGE-LOOP (scan from the old end while the scan node is used and age + tick < now, strictly; '
+              'each aged entry is re-filed once under (size_t)(count*ratio), re-stamped, spliced before the previously aged node - initially '
+              'the partition - and the scan restarts; the loop can stop only at the partition or at a young entry); R-AGE-TALLY; '
+              'R-AGE-BEFORE-VICTIM (a full insert ages first and evicts the minimum read afterwards). Declined: exactness of the float '
+              'product for counts above 2^24.',
+              ['steady_clock monotone', 'RI at entry (age list ordered by stamp)', 'float rounding of count*ratio not decided'],
+              {'R-AGE-LOOP': 3, 'R-STAMP': 30, 'R-AGE-TALLY': 1, 'R-AGE-BEFORE-VICTIM': 4, 'R-USE-POS': 10})
+c15 = _simple('C15', rules_policy.rule_c15,
+              'C15 (DESIGN.md 6.C15), rr_cache: R-RNG-ENGINE (member mt19937 seeded from random_device), R-RNG-BOUNDS (on every evicting insert '
+              'path exactly one draw from uniform_int_distribution<size_t>{0, size-1} on the member engine, under size >= capacity >= 1, the '
+              'drawn position is mapped through the open list to the victim slot, one removal, before the bind), R-RNG-ONLY-ON-EVICT, '
+              'R-PERM-BACKPTR (every open-list write is matched by a refresh of the moved element\'s stored position unless the position is '
+              'freed). The statistical spread of mt19937 / uniform_int_distribution is trusted (libstdc++), not decided.',
+              ['libstdc++ uniform_int_distribution covers [a,b] uniformly', 'RI at entry'],
+              {'R-RNG-BOUNDS': 4, 'R-PERM-BACKPTR': 8, 'R-RNG-ENGINE': 1})
+
+c20 = _simple('C20', rules_misc.rule_c20,
+              'C20 (DESIGN.md 6.C20): R-RESET-COMPLETE: for every component of abstract state that some non-constructor method writes (counter, '
+              'partition, key index, each auxiliary structure, slot-list order), clear() on its non-empty path re-establishes the constructed '
+              'value (counter := 0, partition := head of the slot list, index/aux cleared; the slot list may be in any order because slots are '
+              'interchangeable, but a re-numbering must cover the whole list); element fields of freed slots are covered by the dead-slot rule '
+              '(C08 R-FREE-SLOT: never read before the next bind writes them); the configured TTL is kept, as the statement says; a mutable '
+              'field without a reset rule is reported. On the empty path nothing may change.',
+              ['RI at entry', 'slots are interchangeable: behaviour does not depend on which free slot an insert claims'],
+              {'R-RESET-COMPLETE': 6})
+c18 = _simple('C18', rules_misc.rule_c18,
+              'C18 (DESIGN.md 6.C18): sibling agreement. For every range method (insert_range, erase_range, find_range, find_range_fill, fifo\'s '
+              'iterator-pair overloads) the set of canonical path summaries (valuation, abstract effects, yielded result; subject key/value/ttl '
+              'abstracted, results renumbered) of its loop body equals that of the single-key sibling (R-SIB-BODY); results are delivered once '
+              'per element paired with the element\'s own key, tallies change exactly on successes, no early exit (R-SIB-PLUMB); one clock '
+              'sample outside the loop, same prefix (purge) as the single form (R-SIB-ONCE); fifo range overloads forward begin/end of the same '
+              'range (R-SIB-FWD). One critical section for the whole loop is C06.',
+              ['ut_map/ut_set insert_range purges once before the loop: equal to per-call purging when uniform_ttl > 0 (observation O1)',
+               'RI at entry of every iteration (loop invariant, by C01/C02 clauses)'],
+              {'R-SIB-BODY': 40, 'R-SIB-PLUMB': 100, 'R-SIB-ONCE': 40})
+c01 = _simple('C01', rules_misc.rule_c01,
+              'C01 (DESIGN.md 6.C01): key<->slot binding discipline on every path of every entry point: R-LOOKUP-PROV (the index is consulted '
+              'with the call\'s own key / range element, a hit yields exactly the value field of the slot the index names for that key, a miss '
+              'yields nothing), R-BIND-COHERENT (index entry for the call\'s key names the claimed slot, the call\'s value goes into that slot, '
+              'every back-pointer of the slot is written once with the matching producer; updates write the found slot), R-KIND (every slot a '
+              'path touches is named by a sanctioned producer: no raw random number, stale or caller value used as slot), R-PERM-BACKPTR (rr), '
+              'R-PARTITION-INTEGRITY (no bound slot is left on the free side of the partition, none is bound twice), R-NO-REHASH.',
+              ['RI at entry', 'paper induction: BIND/UPDATE are the only writers of values, lookups read the slot the index names'],
+              {'R-LOOKUP-PROV': 100, 'R-BIND-COHERENT': 40, 'R-KIND': 200, 'R-NO-REHASH': 8})
+c08 = _simple('C08', rules_misc.rule_c08,
+              'C08 (DESIGN.md 6.C08): R-ITER-TS (no use of an iterator after the erase that invalidated it, nor of an index iterator obtained '
+              'before a loop that erases from that container), R-FREE-SLOT (stored iterators are read only from slots known bound), '
+              'R-CLAIM-DOMINATED (list-position domain: the partition is advanced only when a free node is known to exist, moved back only over '
+              'a bound node, no bound node left on the free side, splice forms), R-NONEMPTY-DEREF, R-NO-REHASH, R-KIND, R-PERM-BACKPTR, '
+              'R-RAII-ONLY (no manual memory management in the headers: storage is owned by std containers, so destruction is exactly-once '
+              'once UB is excluded), L5 (no re-lock of the non-recursive mutex).',
+              ['UB inside user key/value operations and overflow of now+ttl are outside the property', 'RI at entry'],
+              {'R-ITER-TS': 100, 'R-FREE-SLOT': 100, 'R-RAII-ONLY': 10, 'R-CLAIM-DOMINATED': 60})
+
+CHECKS = {'C01': c01, 'C08': c08, 'C18': c18, 'C20': c20, 'C11': c11, 'C14': c14, 'C15': c15, 'C10': c10, 'C12': c12, 'C13': c13, 'C04': c04, 'C05': c05, 'C16': c16, 'C17': c17, 'C02': c02, 'C03': c03, 'C06': c06, 'C07': c07, 'C09': c09, 'C19': c19}
 
 
 def run(pid, tier, repo, replay=None):
